@@ -354,7 +354,7 @@ func ruleOpenGuard(rule string) func(*Ctx) {
 					"ae2.localMin.PolyType": intVal(enumByName(t.polys, "Clip")),
 					"ae2.windCount":        intVal(wc),
 				}
-				ex := &explorer{c: c, f: f, atoms: atoms}
+				ex := &explorer{c: c, f: f, atoms: atoms, canon: canonParams(f, recv, "ae1", "ae2", "pt")}
 				outs := ex.explore(nil)
 				if ex.overflow {
 					fatalf("intersectEdges: path explosion")
@@ -535,7 +535,11 @@ func ruleWrappers(rule string) func(*Ctx) {
 		clips := c.enumValues("ClipType")
 		for _, x := range ws {
 			f := c.fn(x.fn)
-			ex := &explorer{c: c, f: f}
+			roles := []string{"subject", "clip", "fillRule", "precision"}
+			if x.clipArg == "nil" {
+				roles = []string{"subject", "fillRule", "precision"}
+			}
+			ex := &explorer{c: c, f: f, canon: canonParams(f, roles...)}
 			outs := ex.explore(nil)
 			bad := ""
 			if len(outs) != 1 || len(outs[0].calls) != 1 {
@@ -570,7 +574,7 @@ func ruleWrappers(rule string) func(*Ctx) {
 		} {
 			f := c.fn(g.fn)
 			polys := c.enumValues("PathType")
-			ex := &explorer{c: c, f: f}
+			ex := &explorer{c: c, f: f, canon: canonParams(f, "clipType", "subject", "clip", "fillRule", "precisionV")}
 			outs := ex.explore(nil)
 			bad := ""
 			sawFull := false
@@ -649,7 +653,7 @@ func ruleIntersectMirror(rule string) func(*Ctx) {
 				"ae1.localMin.PolyType": intVal(0), "ae2.localMin.PolyType": intVal(pt2),
 				"getPolyType(ae1)": intVal(0), "getPolyType(ae2)": intVal(pt2), "isSamePolyType(ae1, ae2)": boolVal(samePoly),
 			}
-			ex := &explorer{c: c, f: f, atoms: atoms, maxPaths: 3000}
+			ex := &explorer{c: c, f: f, atoms: atoms, maxPaths: 3000, canon: canonParams(f, recv, "ae1", "ae2", "pt")}
 			outs := ex.explore(nil)
 			if ex.overflow {
 				fatalf("intersectEdges: path explosion")
